@@ -3,7 +3,9 @@
 // a handler standing in for the smoke test) over a real hdsclient.Client. Requests carry valid tokens and
 // every single mutation of them on the three carriers and their combinations, with the server registered,
 // unregistered and after a secret rotation. One line per request:
-//   AUTH route=<ws|smoke> secret=<0|1> hdr=<->|<B|b><idx> query=<->|idx cookie=<->|idx T<idx>=<facts> .. | entered=<0|1> status=<n>
+//
+//	AUTH route=<ws|smoke> secret=<0|1> hdr=<->|<B|b><idx> query=<->|idx cookie=<->|idx T<idx>=<facts> .. | entered=<0|1> status=<n>
+//
 // where facts = wellFormed,alg,macOk,exp,iat,nbf (offsets in seconds, '-' = absent) are computed by a
 // reference written here (not by the code under test); the Lean driver evaluates Auth.admit on them.
 package main
@@ -23,6 +25,7 @@ import (
 	"net/http/httptest"
 	"os"
 	"strings"
+	"sync"
 	"sync/atomic"
 	"time"
 
@@ -38,9 +41,9 @@ type tok struct {
 	str  string
 	kind string
 	// reference facts
-	wellFormed bool
-	alg        string
-	macOk      bool
+	wellFormed    bool
+	alg           string
+	macOk         bool
 	exp, iat, nbf *int64
 }
 
@@ -298,6 +301,64 @@ func main() {
 		fmt.Fprintf(os.Stdout, "AUTH route=%s secret=%s hdr=%s query=%s cookie=%s T0=%s T1=%s T2=%s | entered=%d status=%d kinds=%s/%s/%s method=%s\n",
 			route, sec, hdr, query, cookie, factTok(toks[0]), factTok(toks[1]), factTok(toks[2]), did, status, toks[0].kind, toks[1].kind, toks[2].kind, method)
 	}
+	// while the server registers again its secret is dropped and set at any moment: a token signed with the empty key (or
+	// with a key that is not the server's) must be refused at every one of these moments, by the handshake and by the
+	// HTTP wrapper, called here from several goroutines while another one keeps changing the secret
+	{
+		now := time.Now().Unix()
+		forged := []tok{build("empty-key", "HS256", "", "", p64(3600), p64(-5), nil, now),
+			build("wrong-secret", "HS256", secrets[1], secrets[1], p64(3600), p64(-5), nil, now)}
+		hs := hagallhttp.VerifyAuthToken(context.Background(), client)
+		var inside int32
+		wrapped := hagallhttp.VerifyAuthTokenHandler(client, func(w http.ResponseWriter, r *http.Request) { atomic.AddInt32(&inside, 1) })
+		stop := make(chan struct{})
+		var wg sync.WaitGroup
+		wg.Add(1)
+		go func() {
+			defer wg.Done()
+			for {
+				select {
+				case <-stop:
+					return
+				default:
+				}
+				client.SetServerData("srv", secrets[0])
+				client.SetServerData("", "")
+			}
+		}()
+		var attempts, admitted int64
+		for g := 0; g < 6; g++ {
+			wg.Add(1)
+			go func(g int) {
+				defer wg.Done()
+				t := forged[g%2]
+				for {
+					select {
+					case <-stop:
+						return
+					default:
+					}
+					req, _ := http.NewRequest("GET", "http://relay.invalid/", nil)
+					req.Header.Set("Authorization", "Bearer "+t.str)
+					atomic.AddInt64(&attempts, 1)
+					if g < 3 {
+						if hs(&websocket.Config{}, req) == nil {
+							atomic.AddInt64(&admitted, 1)
+						}
+					} else {
+						before := atomic.LoadInt32(&inside)
+						wrapped(httptest.NewRecorder(), req)
+						_ = before
+					}
+				}
+			}(g)
+		}
+		time.Sleep(800 * time.Millisecond)
+		close(stop)
+		wg.Wait()
+		fmt.Fprintf(os.Stdout, "AUTHROT attempts=%d admitted=%d\n", attempts, admitted+int64(atomic.LoadInt32(&inside)))
+	}
+
 	// a token presented while valid and presented again after it has expired (same secret, no rotation)
 	cur = secrets[0]
 	client.SetServerData("srv", cur)
